@@ -302,7 +302,7 @@ impl Layer {
     ///
     /// Panics if .
     pub fn from_clipboard_data(data: &[u8]) -> Option<Layer> {
-        if data[0] != 0 {
+        if data.len() < 17 || data[0] != 0 {
             return None;
         }
         let x = i32::from_le_bytes(data[1..5].try_into().unwrap());
@@ -310,6 +310,10 @@ impl Layer {
         let width = u32::from_le_bytes(data[9..13].try_into().unwrap()) as usize;
         let height = u32::from_le_bytes(data[13..17].try_into().unwrap()) as usize;
         let mut data = &data[17..];
+        // every cell record has 14 bytes
+        if width.checked_mul(height)?.checked_mul(14)? > data.len() {
+            return None;
+        }
 
         let mut layer = Layer::new(fl!(crate::LANGUAGE_LOADER, "layer-pasted-name"), (width, height));
         layer.properties.has_alpha_channel = true;
@@ -318,7 +322,8 @@ impl Layer {
         for y in 0..height {
             for x in 0..width {
                 let ch = AttributedChar {
-                    ch: unsafe { char::from_u32_unchecked(u16::from_le_bytes([data[0], data[1]]) as u32) },
+                    // surrogates are no characters
+                    ch: char::from_u32(u16::from_le_bytes([data[0], data[1]]) as u32).unwrap_or(' '),
                     attribute: TextAttribute {
                         attr: u16::from_le_bytes([data[2], data[3]]),
                         font_page: u16::from_le_bytes([data[4], data[5]]) as usize,
